@@ -21,7 +21,7 @@ var c04Patterns = []string{"single", "twice", "concurrent3", "race-client", "cle
 func init() {
 	Register(&Prop{ID: "C04",
 		Meta: Meta{Level: "fault_enumeration",
-			Rule:       "matrix: plugin shutdown behaviour {exits at once; cleanup of 0/100/500/1500ms then exit writing a marker file; ignores the request; frozen by SIGSTOP; already crashed; busy in a call; never connected; failed handshake} x protocol {net/rpc, gRPC, gRPC+mux} x launch {command, custom runner, reattach} x call pattern {Kill; Kill twice; 3 concurrent Kill; Kill racing Client(); CleanupClients over 3 managed clients in mixed states}, each cell run fault-free and (seeded part) with schedule noise in Client.Kill/Close paths and socket latency; oracle: Kill returns within 60s simulated (+ injected delay), afterwards the process has exited and was reaped and Exited() is true, a plugin that exits <=500ms after the request received no SIGKILL and its cleanup marker exists, one that never exits received SIGKILL, no panic",
+			Rule:       "matrix: plugin shutdown behaviour {exits at once; cleanup of 0/100/500/1500ms then exit writing a marker file; ignores the request; frozen by SIGSTOP; already crashed; busy in a call; never connected; failed handshake} x protocol {net/rpc, gRPC, gRPC+mux} x launch {command, custom runner, reattach} x call pattern {Kill; Kill twice; 3 concurrent Kill; Kill racing Client(); CleanupClients over 3 managed clients in mixed states}, plus Kill / CleanupClients issued at 7 offsets while another goroutine's Start still waits for the handshake of a plugin that stays silent, writes a bad line late, exits late or serves late, each cell run fault-free and (seeded part) with schedule noise in Client.Kill/Close paths and socket latency; oracle: Kill returns within 60s simulated (+ injected delay), afterwards the process has exited and was reaped and Exited() is true, a plugin that exits <=500ms after the request received no SIGKILL and its cleanup marker exists, one that never exits received SIGKILL, no panic",
 			Exhaustive: "the behaviour x protocol x launch x call-pattern matrix (valid cells)"},
 		Plan: func(tier string, seed uint64, stage int, prev []*h.Result) []*k.Spec {
 			if stage > 0 {
@@ -60,6 +60,18 @@ func init() {
 			for _, c := range cells {
 				out = append(out, sp("C04", fmt.Sprintf("cell/%s/%s/%s/%s", confLabel(c), c["launch"], c["beh"], c["pat"]), seed, c))
 			}
+			// Kill (or CleanupClients) issued while another goroutine's Start is
+			// still waiting for the handshake of a plugin that will fail it
+			for _, launch := range []string{"cmd", "runner"} {
+				for _, sb := range c04StartBehaviours {
+					for _, off := range []string{"0", "1ms", "100ms", "700ms", "2900ms", "3s", "3001ms"} {
+						for _, via := range []string{"kill", "cleanup"} {
+							out = append(out, sp("C04", fmt.Sprintf("kill-during-start/%s/%s/%s/%s", launch, sb, off, via), seed,
+								P("proto", "grpc", "launch", launch, "duringstart", sb, "off", off, "via", via)))
+						}
+					}
+				}
+			}
 			n := 600
 			if tier == "thorough" {
 				n = 100000
@@ -85,6 +97,74 @@ func init() {
 	})
 }
 
+var c04StartBehaviours = []string{"silent", "late-bad-line", "late-exit", "late-good-line"}
+
+// runC04DuringStart: Kill racing a Start that has not returned yet.
+func runC04DuringStart(r *h.Run) {
+	w := r.W
+	c := r.ConfFromParams()
+	sb, via := r.Spec.P("duringstart", "silent"), r.Spec.P("via", "kill")
+	off := parseDur(r.Spec.P("off", "0"))
+	c.Timeout = 3 * time.Second
+	c.Managed = via == "cleanup"
+	ctx := fmt.Sprintf("kill-during-start plugin=%s launch=%s via=%s", sb, c.Launch, via)
+	switch sb {
+	case "silent":
+		c.Path = "/bin/silent"
+		r.InstallScript(c.Path, &h.Script{})
+	case "late-bad-line":
+		c.Path = "/bin/latebad"
+		r.InstallScript(c.Path, &h.Script{Steps: []h.ScriptStep{h.Out("not a handshake\n").After(700 * time.Millisecond)}})
+	case "late-exit":
+		c.Path = "/bin/lateexit"
+		r.InstallScript(c.Path, &h.Script{Steps: []h.ScriptStep{h.Err("giving up\n").After(700 * time.Millisecond)}, End: "exit:3"})
+	case "late-good-line":
+		// a real plugin that takes 700 ms to get to Serve
+		c.PluginMain = func(serve func()) { time.Sleep(700 * time.Millisecond); serve() }
+		r.InstallPlugin(&c)
+	}
+	cl := r.NewClient(c)
+	var wg sync.WaitGroup
+	wg.Add(1)
+	var so h.Outcome
+	go k.Trap(func() {
+		defer wg.Done()
+		so = r.Do("Start", 60*time.Second, func() (any, error) { return cl.Start() })
+	})
+	time.Sleep(off)
+	ko := r.Do("Kill[during-start]", 60*time.Second, func() (any, error) {
+		if via == "cleanup" {
+			plugin.CleanupClients()
+		} else {
+			cl.Kill()
+		}
+		return nil, nil
+	})
+	wg.Wait()
+	if ko.Hung || so.Hung {
+		r.Violate("hang", fmt.Sprintf("op=%s %s", map[bool]string{true: "Kill", false: "Start"}[ko.Hung], ctx),
+			fmt.Sprintf("Kill hung=%v Start hung=%v\n%s", ko.Hung, so.Hung, r.HostStacks("goplugin")))
+		return
+	}
+	// whatever the interleaving was, a further Kill ends it
+	fo := r.Do("Kill(final)", 60*time.Second, func() (any, error) { cl.Kill(); return nil, nil })
+	if fo.Hung {
+		r.Violate("hang", "op=Kill "+ctx+" final", r.HostStacks("goplugin"))
+		return
+	}
+	time.Sleep(3 * time.Second)
+	if p := w.ProcByName("plugin"); p != nil {
+		if p.Alive() {
+			r.Violate("process-left-behind", ctx, "plugin process still alive after Kill returned")
+		} else if p.State() != k.Reaped {
+			r.Violate("not-reaped", ctx, "plugin exited but was never waited for (zombie) 3s after Kill")
+		} else if !cl.Exited() {
+			r.Violate("not-exited", ctx, "Kill returned and the process is gone but Exited() is false")
+		}
+	}
+	w.Probe("kill-during-start.checked")
+}
+
 type c04Plugin struct {
 	aliveAtReq bool
 	conf       h.Conf
@@ -97,6 +177,10 @@ type c04Plugin struct {
 }
 
 func runC04(r *h.Run) {
+	if r.Spec.P("duringstart", "") != "" {
+		runC04DuringStart(r)
+		return
+	}
 	w := r.W
 	base := r.ConfFromParams()
 	launch := r.Spec.P("launch", "cmd")
